@@ -13,6 +13,10 @@
 (*   - two PI targets   "pp" = target pi (also the name of math:pi)        *)
 (*                      "pa" = target a  (also the local name of elements) *)
 (*   - text "t", comment "c"                                               *)
+(*   - "te": a ZERO-LENGTH text chunk (elem.text = '' / tail = '', distinct  *)
+(*     from None).  No XML source produces it, but programs do, both tree   *)
+(*     libraries keep it, the tree builders wrap it in a text node and the  *)
+(*     sibling counting includes it: it is a text node of the tree          *)
 (*   - namespace declarations of the document (variable decl):             *)
 (*       "none"  nothing declared          -> elements Q{}a Q{}b           *)
 (*       "p"     xmlns:p="urn:n" on the root -> + Q{urn:n}a, @Q{urn:n}a    *)
@@ -30,12 +34,16 @@
 (*   - document-level comments / PIs before and after the root element     *)
 (*     (DocLevel = TRUE, RootCfg = "R1")                                   *)
 (*   - RootCfg "R4": a single parentless comment / PI node (N = 1)         *)
+(*   - RootCfg "R5": an EXTENDED document node: its children are any        *)
+(*     sequence of elements, text, comments and PIs (several like-named     *)
+(*     element children included), as built by fn:parse-xml-fragment and by *)
+(*     ElementNode.get_document_node(replace=True)                          *)
 (***************************************************************************)
 EXTENDS Naturals, Sequences, FiniteSets
 
 CONSTANTS N,          \* number of numbered (non-document, non-namespace) nodes
           Kinds,      \* subset of AllKinds
-          RootCfg,    \* "R1" document | "R2" element, implied document | "R3" fragment | "R4" lone leaf
+          RootCfg,    \* "R1" document | "R2" element, implied document | "R3" fragment | "R4" lone leaf | "R5" extended document
           Decls,      \* subset of {"none", "p", "dp"}
           DocLevel    \* TRUE: comments/PIs may be children of the document (R1 only)
 
@@ -44,7 +52,8 @@ VARIABLES parent, kind, decl
 ElemK == {"a0", "b0", "an", "ad", "bd"}
 AttrK == {"xa0", "xan"}
 PIK   == {"pp", "pa"}
-AllKinds == ElemK \cup AttrK \cup PIK \cup {"t", "c"}
+TextK == {"t", "te"}
+AllKinds == ElemK \cup AttrK \cup PIK \cup TextK \cup {"c"}
 
 NsOf(k)    == CASE k \in {"a0", "b0", "xa0"} -> ""
                 [] k \in {"an", "xan"}      -> "urn:n"
@@ -59,11 +68,12 @@ Base(k) == CASE k \in {"a0", "an", "ad"} -> "ea"
              [] k = "xa0"                -> "xa"
              [] k = "xan"                -> "xc"
              [] k \in PIK                -> "p"
+             [] k \in TextK              -> "t"
              [] OTHER                    -> k
 bkind == [i \in 1..N |-> Base(kind[i])]
 
 X == INSTANCE XDM WITH Kinds   <- {"ea", "eb", "t", "c", "p", "xa", "xc"},
-                       RootCfg <- IF RootCfg = "R4" THEN "R2" ELSE RootCfg,
+                       RootCfg <- IF RootCfg = "R4" THEN "R2" ELSE IF RootCfg = "R5" THEN "R1" ELSE RootCfg,
                        kind    <- bkind
 
 (* namespaces *)
@@ -85,7 +95,7 @@ ValidParentsX ==
       /\ p[1] = 0
       /\ \A i \in 2..N : p[i] < i
       /\ \A i \in 2..N : p[i] = i-1 \/ p[i] \in X!AncP(p, i-1)
-      /\ (DocLevel /\ RootCfg = "R1") \/ \A i \in 2..N : p[i] >= 1}
+      /\ (DocLevel /\ RootCfg = "R1") \/ RootCfg = "R5" \/ \A i \in 2..N : p[i] >= 1}
 
 PrevSib(p, k, i) ==  \* nearest preceding non-attribute sibling, or 0
   LET S == {j \in 1..(i-1) : p[j] = p[i] /\ k[j] \notin AttrK}
@@ -93,10 +103,10 @@ PrevSib(p, k, i) ==  \* nearest preceding non-attribute sibling, or 0
 
 ValidKindsX(p, k, d) ==
   LET Top == {i \in 1..N : p[i] = 0} IN
-  /\ IF RootCfg = "R4"
-       THEN N = 1 /\ k[1] \in PIK \cup {"c"}
-       ELSE /\ Cardinality({i \in Top : k[i] \in ElemK}) = 1        \* one root element
-            /\ \A i \in Top : k[i] \in ElemK \cup PIK \cup {"c"}   \* document children
+  /\ CASE RootCfg = "R4" -> N = 1 /\ k[1] \in PIK \cup {"c"}
+       [] RootCfg = "R5" -> \A i \in Top : k[i] \in ElemK \cup PIK \cup TextK \cup {"c"}   \* any children
+       [] OTHER -> /\ Cardinality({i \in Top : k[i] \in ElemK}) = 1        \* one root element
+                   /\ \A i \in Top : k[i] \in ElemK \cup PIK \cup {"c"}   \* document children
   /\ \A i \in 1..N : k[i] \in ElemK => k[i] \in (IF p[i] = 0 THEN RootAllowed(d) ELSE AllowedElem(d))
   /\ \A i \in 1..N : k[i] \in AttrK => k[i] \in AllowedAttr(d)
   /\ \A i \in 2..N : p[i] # 0 => k[p[i]] \in ElemK                 \* only elements have children
@@ -104,8 +114,8 @@ ValidKindsX(p, k, d) ==
         /\ p[i] # 0
         /\ (i-1 = p[i] \/ (k[i-1] \in AttrK /\ p[i-1] = p[i]))
         /\ \A j \in 1..N : (j # i /\ p[j] = p[i]) => k[j] # k[i]   \* distinct attribute names
-  /\ \A i \in 2..N : k[i] = "t" =>                                 \* no adjacent text siblings
-        LET j == PrevSib(p, k, i) IN j = 0 \/ k[j] # "t"
+  /\ \A i \in 2..N : k[i] \in TextK =>                             \* one text chunk between two siblings
+        LET j == PrevSib(p, k, i) IN j = 0 \/ k[j] \notin TextK
 
 TreeInitX == /\ decl \in Decls
              /\ parent \in ValidParentsX
@@ -122,8 +132,9 @@ IsElemX(n) == KindX(n) \in ElemK
 ParentX(n) == IF IsNs(n) THEN NsElem(n) ELSE parent[n]
 
 NsNodes  == {100 * e + NsIdx(pf) : e \in {i \in 1..N : kind[i] \in ElemK}, pf \in PrefixesOf(decl)}
-RealNodes == (IF RootCfg = "R1" THEN {0} ELSE {}) \cup (1..N) \cup NsNodes
-RootElem == CHOOSE i \in 1..N : parent[i] = 0 /\ kind[i] \in ElemK     \* not in R4
+HasDocX   == RootCfg \in {"R1", "R5"}
+RealNodes == (IF HasDocX THEN {0} ELSE {}) \cup (1..N) \cup NsNodes
+RootElem == CHOOSE i \in 1..N : parent[i] = 0 /\ kind[i] \in ElemK     \* not in R4, R5
 
 RECURSIVE TopAnc(_)
 TopAnc(n) == IF ParentX(n) = 0 THEN n ELSE TopAnc(ParentX(n))
@@ -139,7 +150,7 @@ AxisX(ax, x) ==
 TestMatch(st, m) ==
   CASE st.k = "elem"    -> KindX(m) \in ElemK /\ NsOf(kind[m]) = st.ns /\ LocalOf(kind[m]) = st.nm
     [] st.k = "attr"    -> KindX(m) \in AttrK /\ NsOf(kind[m]) = st.ns /\ LocalOf(kind[m]) = st.nm
-    [] st.k = "text"    -> KindX(m) = "t"
+    [] st.k = "text"    -> KindX(m) \in TextK
     [] st.k = "comment" -> KindX(m) = "c"
     [] st.k = "pi"      -> KindX(m) \in PIK /\ TargetOf(kind[m]) = st.nm
     [] st.k = "ns"      -> IsNs(m) /\ NsPfx(m) = st.nm
@@ -159,7 +170,7 @@ EvalSteps(S, steps) == IF steps = <<>> THEN S
 (* fn:root() of a node of the tree, "." = the root element as context item *)
 StartSet(start) ==
   CASE start = "/"      -> IF RootCfg = "R3" THEN {1} ELSE {0}
-    [] start = "root()" -> IF RootCfg = "R1" THEN {0} ELSE {1}
+    [] start = "root()" -> IF HasDocX THEN {0} ELSE {1}
     [] start = "."      -> {RootElem}
 
 =============================================================================
